@@ -71,7 +71,12 @@ def gen_bo(tape, spec):
                                       'lcbsc'])
     n_acq_batches = tape.int('n_acq_batches', 1, 6)
     n_evidence = n_pre + n_init + n_acq_batches * bs
+    if bs > 1 and tape.chance('ragged_request', 1, 2):
+        # a request that batch_size does not divide (the last batch is still consumed whole)
+        n_evidence -= tape.int('ragged', 1, bs - 1)
     cont = tape.int('continue_batches', 1, 3) * bs if tape.chance('continue', 1, 4) else 0
+    if cont and bs > 1 and tape.chance('ragged_continue', 1, 2):
+        cont += tape.int('ragged_c', 1, bs - 1)
     return {'bounds': bounds, 'noise_form': nv, 'noise': noise, 'batch_size': bs, 'bpa': bpa,
             'init_form': init_form, 'n_init': n_init, 'n_pre': n_pre, 'update_interval': ui,
             'acq': acq, 'n_evidence': n_evidence, 'continue': cont,
